@@ -149,6 +149,7 @@ func history(r drv.Rand, idx int) *h.World {
 		default:
 			e.Cred = h.Cred{}
 		}
+		e.Cred = h.ExchangeCred(fixed, e.Cred)
 		ak := "none"
 		if r.Chance(1, 3) {
 			ak = drv.Pick(r, kinds)
@@ -188,7 +189,7 @@ func main() {
 	cfg := drv.Parse()
 	r := drv.NewRand(cfg.Seed)
 	wr := emit.NewWriter(cfg.Out, "C15_spec", 0, cfg.Only)
-	n := cfg.Count(400, 8000)
+	n := cfg.Count(700, 8000)
 	for i := 0; i < n; i++ {
 		w := history(r, i)
 		wr.Add(emit.Case{Input: w.Input(), Observed: w.Observed(), Tags: w.TagList(), Human: w.Log})
